@@ -3,7 +3,7 @@
 import ast
 
 from ..report import rule
-from .. import pm, norm, cfg as cfgmod, guards
+from .. import pm, norm, cfg as cfgmod, guards, paths
 from ..model import AnalysisError
 from .common import calls_of, find_calls, returns_of, is_abstract_body, bind_args
 
@@ -73,27 +73,26 @@ def c19_r1(ctx):
            detail=str(sorted(aops)))
     # acceptance: all error counts up to k are final
     finals = [n for n in ast.walk(af.node) if isinstance(n, ast.For) and any(norm.call_name(c) == "add_final_state" for c in norm.calls_in(n))]
-    ok = bool(finals) and norm.canon(finals[0].iter) in ("xrange((1 + k))", "range((1 + k))")
+    ok = bool(finals) and norm.deep_canon(finals[0].iter, af.node) in ("xrange((1 + k))", "range((1 + k))")
     ctx.ob(af, ok, "every state (len(term), e) with e <= k is final (distance <= k accepted)")
     # prefix: exact transitions for i < prefix
-    pl = [n for n in ast.walk(af.node) if isinstance(n, ast.For) and norm.canon(n.iter) in ("xrange(prefix)", "range(prefix)")]
+    pl = [n for n in ast.walk(af.node) if isinstance(n, ast.For) and norm.deep_canon(n.iter, af.node) in ("xrange(prefix)", "range(prefix)")]
     okp = bool(pl) and isinstance(pl[0].target, ast.Name) and any(
         norm.canon(c.args[0]) == "(%s, 0)" % pl[0].target.id and norm.canon(c.args[2]) == "((1 + %s), 0)" % pl[0].target.id
         for c in norm.calls_in(pl[0]) if norm.call_name(c) == "add_transition" and len(c.args) == 3)
-    rest = [n for n in ast.walk(af.node) if isinstance(n, ast.For) and norm.canon(n.iter) in ("xrange(prefix, len(term))", "range(prefix, len(term))")]
+    rest = [n for n in ast.walk(af.node) if isinstance(n, ast.For) and norm.deep_canon(n.iter, af.node) in ("xrange(prefix, len(term))", "range(prefix, len(term))")]
     ctx.ob(af, okp and bool(rest), "the first `prefix` characters must match exactly; edits start after them")
     tw = prog.method("reading.IndexReader", "terms_within", inherited=False)
     ctx.saw(tw)
     loops = [n for n in ast.walk(tw.node) if isinstance(n, ast.For)]
-    ok = len(loops) == 1 and norm.canon(loops[0].iter) == "self.expand_prefix(fieldname, text[:prefix])"
+    ok = len(loops) == 1 and norm.deep_canon(loops[0].iter, tw.node) == "self.expand_prefix(fieldname, text[:prefix])"
     ctx.ob(tw, ok, "brute force enumerates exactly the terms sharing text[:prefix]")
     TA = pm.Alpha(tw)
     dcalls = [c for c in norm.calls_in(tw.node) if norm.call_name(c) == "distance"]
-    kdefs = [st for st in ast.walk(tw.node) if isinstance(st, ast.Assign) and st.value in dcalls and isinstance(st.targets[0], ast.Name)]
-    if len(kdefs) == 1:
-        TA.eq(kdefs[0].targets[0], "k")
-    tests = [n.test for n in ast.walk(tw.node) if isinstance(n, ast.If)]
-    ctx.ob(tw, len(kdefs) == 1 and any(TA.eq(t, "k <= maxdist") for t in tests), "brute force accepts distance <= maxdist",
+    # the acceptance test, with a local holding the distance (if any) expanded: distance(...) <= maxdist
+    tests = [norm.inline_defs(n.test, tw.node) for n in ast.walk(tw.node) if isinstance(n, ast.If)]
+    ctx.ob(tw, len(dcalls) == 1 and any(TA.eq(t, "distance(ANY, ANY, limit=maxdist) <= maxdist") or TA.eq(t, "distance(ANY, ANY, maxdist) <= maxdist")
+                                        for t in tests), "brute force accepts distance <= maxdist",
            detail=str([TA.text(t) for t in tests]))
     # every enumerated term reaches the distance computation (no pre-filter)
     g = cfgmod.cfg_of(tw)
@@ -150,10 +149,22 @@ def c19_r2(ctx):
         else:
             ok = SA.eq(c, "heappush(heap, item)") and SA.fact(facts, "T", "len(heap) < limit")
             ctx.ob(f, ok, "heappush only while the heap holds fewer than `limit` items", loc=ctx.nodeloc(f, c))
-    srt = [c for c in norm.calls_in(f.node) if norm.call_name(c) == "sorted"]
-    keyok = any(k.arg == "key" and isinstance(k.value, ast.Lambda) and len(k.value.args.args) == 1 and
-                norm.canon(k.value.body) in ("((0 - {0}[0]), {0}[1])".format(k.value.args.args[0].arg), "((-{0}[0]), {0}[1])".format(k.value.args.args[0].arg))
-                for c in srt for k in c.keywords)
+    # sorted(heap, key=K) or heap.sort(key=K); K a lambda or a local one-expression function
+    srt = [c for c in norm.calls_in(f.node) if norm.call_name(c) in ("sorted", "sort")]
+    localfns = paths.local_functions(f.node)
+    keyok = False
+    for c in srt:
+        for k in c.keywords:
+            if k.arg != "key":
+                continue
+            param = body = None
+            if isinstance(k.value, ast.Lambda) and len(k.value.args.args) == 1:
+                param, body = k.value.args.args[0].arg, k.value.body
+            elif isinstance(k.value, ast.Name) and k.value.id in localfns and len(localfns[k.value.id].args.args) == 1:
+                param, body = localfns[k.value.id].args.args[0].arg, paths.func_as_expr(localfns[k.value.id])
+            if param is not None and body is not None and \
+                    norm.canon(body) in ("((0 - {0}[0]), {0}[1])".format(param), "((-{0}[0]), {0}[1])".format(param)):
+                keyok = True
     ctx.ob(f, keyok, "result sorted by (0 - score, word)")
 
 
